@@ -153,7 +153,7 @@ func Validate(e *Eff, body *hclsyntax.Body, unknown bool) []ExpDiag {
 		if len(b.Labels) < len(bs.Labels) {
 			out = append(out, ExpDiag{hcl.DiagError, "missing-labels", b.Type, b.Range()})
 		}
-		if bs.Body == nil {
+		if bs.Body == nil && len(bs.DependentBody) == 0 {
 			// a block type without body schema: its content is not described by the schema
 			out = append(out, Validate(nil, b.Body, true)...)
 			continue
